@@ -410,13 +410,17 @@ func (c workCfg) stepBound() int {
 
 // Items.  The model's items are numbers; on the implementation item id i is the Go value items.val(i), of
 // mixed dynamic types chosen so that DISTINCT items (distinct under == on interface values, which is what a
-// map[any]bool keys on) share their printed form: within a group g = i/7 the kinds are
+// map[any]bool keys on) share their printed form: within a group g = i/8 the kinds are
 //
-//	0 int(g)   1 "g"   2 int64(g)   3 [2]int{g,g}   4 "[g g]"   5 and 6 two different pointers to pt{g}.
+//	0 int(g)   1 "g"   2 the nil interface value (g = 0) / float64(g)   3 int64(g)   4 [2]int{g,g}
+//	5 "[g g]"   6 and 7 two different pointers to pt{g}.
 //
-// Value kinds are built afresh on every Add, so duplicate Adds hand over equal but not identical values
-// (they must be ignored); the pointers are fixed per run.  f maps what it receives back to the id by identity.
+// nil is a legitimate item (a valid map key).  Value kinds are built afresh on every Add, so duplicate Adds
+// hand over equal but not identical values (they must be ignored); the pointers are fixed per run.  f maps
+// what it receives back to the id by identity.
 type pt struct{ v int }
+
+const itemKinds = 8
 
 type itemTable struct {
 	ptrs map[int]*pt
@@ -426,8 +430,8 @@ type itemTable struct {
 func newItems(n int) *itemTable {
 	t := &itemTable{ptrs: map[int]*pt{}, ids: map[any]int{}}
 	for i := 0; i < n; i++ {
-		if k := i % 7; k == 5 || k == 6 {
-			t.ptrs[i] = &pt{i / 7}
+		if k := i % itemKinds; k >= 6 {
+			t.ptrs[i] = &pt{i / itemKinds}
 		}
 		t.ids[t.val(i)] = i
 	}
@@ -438,34 +442,43 @@ func newItems(n int) *itemTable {
 }
 
 func (t *itemTable) val(i int) any {
-	g := i / 7
-	switch i % 7 {
+	g := i / itemKinds
+	switch i % itemKinds {
 	case 0:
 		return g
 	case 1:
 		return strconv.Itoa(g)
 	case 2:
-		return int64(g)
+		if g == 0 {
+			return nil
+		}
+		return float64(g)
 	case 3:
-		return [2]int{g, g}
+		return int64(g)
 	case 4:
+		return [2]int{g, g}
+	case 5:
 		return fmt.Sprintf("[%d %d]", g, g)
 	}
 	return t.ptrs[i]
 }
 
 func itemsDesc(n int) string {
-	kinds := []string{"int(%d)", "string %q", "int64(%d)", "[2]int{%[1]d,%[1]d}", "string \"[%[1]d %[1]d]\"", "pointer A to pt{%d}", "pointer B to pt{%d}"}
+	kinds := []string{"int(%d)", "string %q", "float64(%d)", "int64(%d)", "[2]int{%[1]d,%[1]d}", "string \"[%[1]d %[1]d]\"", "pointer A to pt{%d}", "pointer B to pt{%d}"}
 	var p []string
-	for i := 0; i < n && i < 14; i++ {
-		g := i / 7
+	for i := 0; i < n && i < 16; i++ {
+		g := i / itemKinds
 		var v any = g
-		if i%7 == 1 {
+		if i%itemKinds == 1 {
 			v = strconv.Itoa(g)
 		}
-		p = append(p, strconv.Itoa(i)+"="+fmt.Sprintf(kinds[i%7], v))
+		d := fmt.Sprintf(kinds[i%itemKinds], v)
+		if i == 2 {
+			d = "nil (the nil interface value)"
+		}
+		p = append(p, strconv.Itoa(i)+"="+d)
 	}
-	return "item ids stand for the Go values " + strings.Join(p, ", ") + " (and so on, 7 kinds per group)"
+	return "item ids stand for the Go values " + strings.Join(p, ", ") + " (and so on, 8 kinds per group)"
 }
 
 func runWork(c workCfg, st vsync.Strategy) *vsync.Outcome { return runWorkMode(c, st, false) }
@@ -723,18 +736,18 @@ type smallCfg struct {
 
 func smallGraphs() []smallCfg {
 	return []smallCfg{
-		{[][]int{{}}, nil},                                   // Do on an EMPTY work set: returns at once, f never called
-		{[][]int{{1}, {}}, nil},                              // empty initial set, items exist but are never added
-		{[][]int{{}}, []int{0}},                              // one item
-		{[][]int{{1}, {}}, []int{0}},                         // chain of 2
-		{[][]int{{1, 2}, {}, {}}, []int{0}},                  // fan-out; the three items print alike (0, "0", int64 0)
-		{[][]int{{1, 1, 0}, {0}}, []int{0}},                  // duplicate Adds and a cycle
-		{[][]int{{1, 2}, {2, 3}, {3}, {}}, []int{0, 0}},      // diamond with duplicates (the Coq example)
-		{[][]int{{1}, {2}, {3}, {4}, {}}, []int{0}},          // chain of 5: workers park and are woken repeatedly
-		{[][]int{{1, 2, 3, 4}, {}, {}, {}, {}}, []int{0}},    // wide fan-out: more work than workers
-		{[][]int{{}, {}, {}}, []int{0, 1, 2, 1}},             // several initial items, no children
-		{[][]int{{3}, {3}, {4}, {4}, {}}, []int{0, 1, 2}},    // two roots joining
-		{[][]int{{}, {}, {}, {}, {}, {6}, {5}}, []int{5, 5}}, // two different pointers to equal structs adding each other
+		{[][]int{{}}, nil},                                       // Do on an EMPTY work set: returns at once, f never called
+		{[][]int{{1}, {}}, nil},                                  // empty initial set, items exist but are never added
+		{[][]int{{}}, []int{0}},                                  // one item
+		{[][]int{{1}, {}}, []int{0}},                             // chain of 2
+		{[][]int{{1, 2}, {}, {}}, []int{0}},                      // fan-out; the three items print alike (0, "0", int64 0)
+		{[][]int{{1, 1, 0}, {0}}, []int{0}},                      // duplicate Adds and a cycle
+		{[][]int{{1, 2}, {2, 3}, {3}, {}}, []int{0, 0}},          // diamond with duplicates (the Coq example)
+		{[][]int{{1}, {2}, {3}, {4}, {}}, []int{0}},              // chain of 5: workers park and are woken repeatedly
+		{[][]int{{1, 2, 3, 4}, {}, {}, {}, {}}, []int{0}},        // wide fan-out: more work than workers
+		{[][]int{{}, {}, {}}, []int{0, 1, 2, 1}},                 // several initial items, no children
+		{[][]int{{3}, {3}, {4}, {4}, {}}, []int{0, 1, 2}},        // two roots joining
+		{[][]int{{}, {}, {}, {}, {}, {}, {7}, {6}}, []int{6, 6}}, // two different pointers to equal structs adding each other
 	}
 }
 
@@ -846,6 +859,31 @@ func mainWork() {
 		oneWork(c, out, src)
 	}
 	flushCmp()
+	// 4b. large worker counts (direct oracles only: the model replay is not worth its cost there)
+	for _, n := range []int{257, 300, 1000} {
+		for gi, g := range [][][]int{{{}}, {{1}, {2}, {}}, {{1, 2, 3}, {}, {}, {}}} {
+			if enough() {
+				break
+			}
+			c := workCfg{n: n, g: g, inits: []int{0}}
+			if gi == 0 && n == 300 {
+				c.inits = nil
+			}
+			for v := 0; v < 2; v++ {
+				var st vsync.Strategy = &prefixStrat{}
+				if v == 1 {
+					st = &randStrat{r: r.Fork()}
+				}
+				out := runWork(c, st)
+				res.Case(c.String()+"#large#"+strconv.Itoa(v), true)
+				res.Count("src:large-n")
+				for _, f := range workOracles(c, out) {
+					violate(f.oracle, f.detail, map[string]string{"prop": "C09", "cfg": c.String(), "decisions": dots(chosen(out.Decisions)), "mode": "direct", "source": "large-n",
+						"text": fmt.Sprintf("Work.Do(n=%d), children=%v, initial Adds=%v; %s", c.n, c.g, c.inits, itemsDesc(len(c.g)))})
+				}
+			}
+		}
+	}
 	// 5. the same with every shim operation a scheduling point (pre-emption inside critical sections and
 	// between Unlock and the next statement); direct oracles only
 	nFine := 1500
@@ -873,7 +911,7 @@ func mainWork() {
 	}
 	res.Exhaustive = false
 	_ = exhaustiveAll
-	res.Rule = fmt.Sprintf("real par.Work on the vsync scheduler (instrumented copy regenerated from the source): exhaustive DFS over all schedules with <= %d pre-emptions (cap %d runs per configuration) for n in 1..3 over %d configurations (item graphs of <= 7 nodes, empty initial sets included; items are Go values of mixed dynamic types whose printed forms collide), incl. every Intn answer and every choice of the woken waiter; %d complete schedules drawn from the Coq model and replayed on the code; %d random / priority-based schedules for n <= 8 and random graphs of <= 24 items; every executed schedule is replayed on the extracted model (event trace + runnable set after every step); %d further random schedules at the granularity of single sync operations (direct oracles only); the model's own state space is explored exhaustively for the small configurations. A case is non-trivial when its schedule has a pre-emption, a park or a Signal wake-up; distinct = distinct (configuration, event trace).", bound, maxRuns, len(smallGraphs()), nModel, nRand, nFine)
+	res.Rule = fmt.Sprintf("real par.Work on the vsync scheduler (instrumented copy regenerated from the source): exhaustive DFS over all schedules with <= %d pre-emptions (cap %d runs per configuration) for n in 1..3 over %d configurations (item graphs of <= 8 nodes, the nil interface value among the items, empty initial sets included; items are Go values of mixed dynamic types whose printed forms collide), incl. every Intn answer and every choice of the woken waiter; %d complete schedules drawn from the Coq model and replayed on the code; %d random / priority-based schedules for n <= 8 and random graphs of <= 24 items; every executed schedule is replayed on the extracted model (event trace + runnable set after every step); %d further random schedules at the granularity of single sync operations (direct oracles only); the model's own state space is explored exhaustively for the small configurations. A case is non-trivial when its schedule has a pre-emption, a park or a Signal wake-up; distinct = distinct (configuration, event trace).", bound, maxRuns, len(smallGraphs()), nModel, nRand, nFine)
 }
 
 func parseSched(s string) [][2]int {
@@ -943,6 +981,16 @@ func (c cacheCfg) progStr() string {
 }
 func (c cacheCfg) String() string { return c.progStr() + "|" + dots(c.vals) }
 
+// fval: what f_k returns.  The value 0 stands for a nil result (an f may return the nil interface; the
+// model driver prints the value 0 as nil as well).
+func (c cacheCfg) fval(k int) any {
+	if c.vals[k] == 0 {
+		return nil
+	}
+	return c.vals[k]
+}
+func (c cacheCfg) want(k int) string { return showVal(c.fval(k)) }
+
 func parseCacheCfg(s string) (cacheCfg, bool) {
 	p := strings.Split(s, "|")
 	if len(p) != 2 {
@@ -1007,7 +1055,7 @@ func runCache(c cacheCfg, st vsync.Strategy) *vsync.Outcome {
 						vsync.Trace("fb:" + strconv.Itoa(k))
 						vsync.Yield("fe")
 						vsync.Trace("fe:" + strconv.Itoa(k))
-						return c.vals[k]
+						return c.fval(k)
 					})
 					vsync.Trace(fmt.Sprintf("r:D%d=%s", k, showVal(v)))
 				} else {
@@ -1034,6 +1082,8 @@ func cacheOracles(c cacheCfg, out *vsync.Outcome) (fs []finding) {
 	fcalls, fdone := map[int]int{}, map[int]bool{}
 	inGet := map[int]int{} // thread -> step index at which its current Get started (-2: not in Get)
 	getStart := map[int]int{}
+	doReturned := map[int]bool{}   // some Do(k) has returned
+	getAfterDone := map[int]bool{} // the thread's current Get(k) started after a Do(k) had returned
 	for _, nt := range out.Notes {
 		switch {
 		case strings.HasPrefix(nt.Text, "fb:"):
@@ -1048,20 +1098,26 @@ func cacheOracles(c cacheCfg, out *vsync.Outcome) (fs []finding) {
 		case strings.HasPrefix(nt.Text, "c:G"):
 			inGet[nt.T] = 1
 			getStart[nt.T] = nt.Step
+			k, _ := strconv.Atoi(nt.Text[3:])
+			getAfterDone[nt.T] = doReturned[k]
 		case strings.HasPrefix(nt.Text, "r:D"):
 			kv := strings.SplitN(nt.Text[3:], "=", 2)
 			k, _ := strconv.Atoi(kv[0])
-			if kv[1] != strconv.Itoa(c.vals[k]) {
-				bad("cache/do-returns-f-value", fmt.Sprintf("thread %d: Do(%d) returned %s, f returns %d", nt.T, k, kv[1], c.vals[k]))
+			if kv[1] != c.want(k) {
+				bad("cache/do-returns-f-value", fmt.Sprintf("thread %d: Do(%d) returned %s, f returns %s", nt.T, k, kv[1], c.want(k)))
 			}
+			doReturned[k] = true
 			if !fdone[k] {
 				bad("cache/do-after-f", fmt.Sprintf("thread %d: Do(%d) returned before the call of f completed", nt.T, k))
 			}
 		case strings.HasPrefix(nt.Text, "r:G"):
 			kv := strings.SplitN(nt.Text[3:], "=", 2)
 			k, _ := strconv.Atoi(kv[0])
-			if kv[1] != "nil" && (kv[1] != strconv.Itoa(c.vals[k]) || !fdone[k]) {
-				bad("cache/get-nil-or-value", fmt.Sprintf("thread %d: Get(%d) returned %s (f's value %d, f completed: %v)", nt.T, k, kv[1], c.vals[k], fdone[k]))
+			if kv[1] != "nil" && (kv[1] != c.want(k) || !fdone[k]) {
+				bad("cache/get-nil-or-value", fmt.Sprintf("thread %d: Get(%d) returned %s (f's value %s, f completed: %v)", nt.T, k, kv[1], c.want(k), fdone[k]))
+			}
+			if kv[1] == "nil" && c.want(k) != "nil" && getAfterDone[nt.T] {
+				bad("cache/get-after-done", fmt.Sprintf("thread %d: Get(%d) returned nil although a Do(%d) had returned %s before this Get started (nil means: not computed yet)", nt.T, k, k, c.want(k)))
 			}
 			// Get never blocks: between its start and its return the thread executed no Lock / Wait
 			for si := getStart[nt.T] + 1; si <= nt.Step && si < len(out.Steps); si++ {
@@ -1231,9 +1287,11 @@ func oneCache(c cacheCfg, out *vsync.Outcome, src string) bool {
 
 func smallCacheCfgs() []cacheCfg {
 	mk := func(s string) cacheCfg { c, _ := parseCacheCfg(s + "|100.101"); return c }
+	mkv := func(s, v string) cacheCfg { c, _ := parseCacheCfg(s + "|" + v); return c }
 	return []cacheCfg{
 		mk("D0/D0"), mk("D0/G0"), mk("D0.G0/G0.D0"), mk("D0/D0/D0"), mk("D0/D0/G0"),
 		mk("D0.D1/D1.D0"), mk("D0.G1/G0.D0/D1"), mk("G0.D0.G0/D0"), mk("D0.D0/G0.G0"), mk("D0/G0/G0.D0"),
+		mkv("D0.D0.G0/D0", "0"), mkv("D0.D1/G0.D0", "0.7"), // f_0 returns nil: still computed once
 	}
 }
 
@@ -1241,7 +1299,11 @@ func randCacheCfg(r *common.RNG, maxT, maxCalls, maxKeys int) cacheCfg {
 	nk := 1 + r.Intn(maxKeys)
 	c := cacheCfg{}
 	for k := 0; k < nk; k++ {
-		c.vals = append(c.vals, 100+k)
+		if r.Intn(5) == 0 {
+			c.vals = append(c.vals, 0) // f_k returns nil
+		} else {
+			c.vals = append(c.vals, 100+k)
+		}
 	}
 	for t := 2 + r.Intn(maxT-1); t > 0; t-- {
 		var p []ccall
@@ -1405,6 +1467,14 @@ func replayInput(in map[string]string, src string) {
 		var st vsync.Strategy = &prefixStrat{prefix: decs}
 		if in["decisions"] == "" && in["schedule"] != "" {
 			st = &replayStrat{sched: parseSched(in["schedule"])}
+		}
+		if in["mode"] == "direct" {
+			out := runWork(c, st)
+			res.Case("direct-replay", true)
+			for _, f := range workOracles(c, out) {
+				violate(f.oracle, f.detail, in)
+			}
+			return
 		}
 		if in["mode"] == "fine" {
 			out := runWorkMode(c, st, true)
